@@ -50,33 +50,53 @@ THEOREMS = [
 ]
 ASSUMPTIONS = [
     'hand-written Lean model of nibabel/parrec.py sorting/trimming/scaling/label logic (Model/C20.lean), tied '
-    'to the code by the differential correspondence run on every case of this run',
+    'to the code by the differential correspondence run on every case of this run; the driver runs the call-site '
+    'model loadSites (index list recomputed by the proxy, by get_data_scaling on the header the proxy saw and on '
+    'img.header = copy(), by get_volume_labels; columns gathered by position), proved equal to the one-list '
+    'specification load',
+    'vol_numbers is NOT hand-modelled only: it is translated from the working tree on every run '
+    '(harness/py2lean.py -> Generated/C20Funcs.lean, semantics of the Python fragment = Basic/PyVal.lean, trusted '
+    'and validated by the gen stream) and proved equal to the model; the lexsort key tuples, the field behind every '
+    'key variable, dynamic_keys and the per-version field lists are read off the source with ast (text level: the '
+    'if-nesting that chooses among the three diffusion_keys alternatives is modelled by hand)',
     'np.lexsort is a STABLE sort by the lexicographic order of its keys (last key first); modelled as a '
     'stable insertion sort',
     'PAR text parsing, REC reading (array_from_file), fancy indexing rec_data[..., indices] and the F-order '
-    'reshape are NumPy/nibabel behaviour observed through the per-slice payload identity, not modelled',
-    'fp scale factors 1.0/SS and RI/(RS*SS) are exact rationals in the model; the harness maps the float64 '
+    'reshape are NumPy/nibabel behaviour observed through the per-slice payload identity; the gather by position '
+    'is modelled (Model.gather), the byte level is not',
+    'fp scale factors 1.0/SS and RI/(RS*SS) are exact rationals in the model (numeric theorems are stated under '
+    'SS != 0 and RS != 0; the driver refuses fp inputs with a zero factor); the harness maps the float64 '
     'values of the implementation back to the unique small rational that rounds to them',
     'sliced reads: NumPy basic indexing / fileslice on the assembled array are taken from Basic/PySlice semantics on '
     'the slice and volume axes (in-plane axes only checked for range/emptiness); the element values of a sliced read '
     'are mapped back to slab identities with the public scale factors',
-    'zooms/affine/dtype depend on the records only through n_slices/n_vols (modelled); the affine itself is '
-    'checked by the oracle (bit-equal to the affine of the label-ordered file), not by the model',
+    'zooms/affine/dtype depend on the records only through n_slices/n_vols (modelled); the affine itself, '
+    'get_bvals_bvecs, img.slicer, the way the pair is opened (PAR/REC name, lower-case extensions, from_file_map, '
+    'nibabel.load) and the mmap mode are checked by the oracle only (bit-equal to the label-ordered file / to the '
+    'by-label reference), not by the model',
 ]
 RULE = ('data sets: versions V4/V4.1/V4.2 x 2-5 slices x up to 3 echoes x 3 dynamics x 2 cardiac phases x 2 image '
-        'types x 2 ASL labels x diffusion (b values x gradient orientations), per-record or per-volume scale '
-        'factors; record orders canonical/reversed/slice-major/interleaved/volume-shuffled/random with REC slabs '
-        'permuted alike; dropped tail of 0..2*slices records (or random dropped records); x scaling {dv,fp} x '
-        'strict_sort x permit_truncated; edge stream: slice numbers out of range, duplicate volume labels '
-        '(V4-like diffusion), missing whole volumes, wrong maxima. A case is non-trivial when it has >1 volume or '
-        'is truncated; distinct by (cfg, records in file order, flags). read stream: for about half of the load cases (always for canonical / slice-major / volume-shuffled untruncated files) 5 index tuples read through the proxy (`[..., k]`, strided and negative slices, int+slice mixes, a few out-of-range ints), scaled and unscaled. spec stream: the specification predicate `complete` and the hypotheses of truncated_exactly_full_volumes (model) against the by-label analysis of the harness, and the conclusion of the theorem on the real loader whenever the hypotheses hold. helper stream: vol_numbers / vol_is_full on '
-        'random slice-number lists.')
-
-# ------------------------------------------------------------------ regen (Generated/C20Funcs.lean)
-
-GEN_PATH = os.path.join(common.VERIF, 'lean', 'NibabelModel', 'Generated', 'C20Funcs.lean')
-GEN_FUNCS = [('vol_numbers', 'vol_numbers')]
-
+        'types x 2 ASL labels x diffusion (b values x gradient orientations); scale factors per record / per volume / '
+        'per image type / UNIFORM slope with varying intercept (one RS+SS, one SS, one RS, one RI for the whole file); '
+        'record orders canonical/reversed/slice-major/interleaved/volume-shuffled/random and the unsorted orders '
+        'whose first record stays in place (first-fixed-random, first-volume-fixed, last-pair-swapped, '
+        'interleaved-volumes) with REC slabs permuted alike; dropped tail of 0..2*slices records (or random dropped '
+        'records); x scaling {dv,fp} x strict_sort x permit_truncated x how the pair is opened (PAR name, REC name, '
+        'lower-case extensions, from_file_map, nibabel.load) x mmap {False,True,c,r}; trunc-mid stream: strict + '
+        'permit_truncated with ONE incomplete volume that is not the last in label order (volumes written '
+        'reversed/shuffled/last-first, slices ascending/descending/interleaved, 1..S-1 records lost at the end); '
+        'edge stream: slice numbers out of range, duplicate volume labels (V4-like diffusion), missing whole '
+        'volumes, wrong maxima. A case is non-trivial when it has >1 volume or is truncated; distinct by (cfg, '
+        'records in file order, flags). read stream: for most load cases (always for canonical / volume-shuffled and '
+        'first-in-place untruncated files) 5 index tuples read through the proxy (`[..., k]`, strided and negative '
+        'slices, int+slice mixes, a few out-of-range ints), scaled and unscaled, and through img.slicer. spec '
+        'stream: the specification predicate `complete` and the hypotheses of truncated_exactly_full_volumes '
+        '(model) against the by-label analysis of the harness, and the conclusion of the theorem on the real loader '
+        'whenever the hypotheses hold. helper stream: vol_numbers / vol_is_full on random slice-number lists. gen '
+        'stream: the vol_numbers TRANSLATED from the working tree, run by the driver, against the real function on '
+        'arbitrary int lists. Every load case also compares img.header with a further copy() and with '
+        'PARRECHeader.from_fileobj, the proxy scaling arrays with the own-record factors, and (diffusion) '
+        'get_bvals_bvecs with the b factors of the volumes.')
 
 def _lean_str_list(xs):
     return '[' + ', '.join('"%s"' % x.replace('\\', '\\\\').replace('"', '\\"') for x in xs) + ']'
